@@ -23,6 +23,7 @@ import (
 
 	"github.com/thanos-community/promql-engine/api"
 	"github.com/thanos-community/promql-engine/engine"
+	"github.com/thanos-community/promql-engine/logicalplan"
 )
 
 var faultShapes = []string{
@@ -31,6 +32,8 @@ var faultShapes = []string{
 	"foo @ 950", "quantile(0.5, foo)", "scalar(sum(foo)) + 1", "foo + foo", `foo{a="x"} / foo`, "max_over_time(foo[45s]) / bar",
 	"count by (b) (foo > 3)", "stddev(foo) + avg(bar)", "sum(foo) / on () group_left sum(bar)", "foo offset 1m - foo",
 	"histogram_quantile(0.9, foo)", "delta(foo[2m] offset 30s)", "vector(time()) + foo", "max by (a) (foo) * on (a) group_right foo",
+	"abs(last_over_time(foo[1m]))", "-last_over_time(foo[45s])", "histogram_quantile(0.5, foo) + 1", "clamp_min(last_over_time(bar[1m]), 2)",
+	"nometric", "sum by (a) (nometric)", "rate(nometric[1m])", "topk(2, nometric)",
 }
 
 var extremeQueries = []string{
@@ -40,6 +43,8 @@ var extremeQueries = []string{
 	"nometric + foo", "topk(3, nometric)", "quantile(0.5, nometric) + 1", "1e308 * foo * 1e308", "sum(foo * 1e308)", "stddev(foo * 1e300)",
 	"topk(1e18, foo)", "bottomk by (a) (9e18, foo)", "topk(3e9, foo)", "topk(scalar(bar{a=\"x\"}) * 1e17, foo)", "bottomk(2147483648, foo)",
 	"quantile(1e18, foo)", "topk(9.3e18, foo)", "topk(-9e18, foo)",
+	// parameters that read the storage through a selector another selector of the query subsumes
+	"topk(scalar(count(foo{a=\"x\"})), foo)", "bottomk(scalar(foo{a=\"x\",b=\"1\"}), foo)", "quantile(scalar(count(bar{a=\"y\"})) / 10, bar)",
 	"count(foo) by (nolabel)", "foo @ 0", "foo offset 100h", "foo @ 1e9", "sum_over_time(foo[1ms])", "rate(foo[1ms])", "irate(foo[1ms])",
 }
 
@@ -56,7 +61,8 @@ func faultData(w Window) []SeriesData {
 				for t := w.Start - 300_000; t <= w.End+15_000; t += 15_000 {
 					smp = append(smp, Sample{T: t + int64(i%3), V: float64(i+1) + float64(t/15_000%9)})
 				}
-				out = append(out, SeriesData{Labels: labels.FromStrings("__name__", name, "a", a, "b", b, "le", fmt.Sprint(i)), Samples: smp})
+				// "zone" sorts after "le": removing a label in place from a storage-owned slice then shows
+				out = append(out, SeriesData{Labels: labels.FromStrings("__name__", name, "a", a, "b", b, "le", fmt.Sprint(i), "zone", fmt.Sprint(i%2)), Samples: smp})
 				i++
 			}
 		}
@@ -333,6 +339,22 @@ func oracleExtreme(seed int64, id int) CaseResult {
 	c := &Case{ID: id, Seed: seed, Query: qs, Window: w, Data: data, Procs: runtime.GOMAXPROCS(0)}
 	res := oracleRef(c)
 	res.Query, res.Window = qs, w
+	if res.Fail == "" && id%2 == 0 {
+		// the same query through a distributed engine (default optimizers, two partitions): planning
+		// and execution must not panic either
+		func() {
+			defer func() {
+				if e := recover(); e != nil {
+					res.Fail = fmt.Sprintf("panic escaped from the distributed engine: %v", e)
+				}
+			}()
+			half := len(data) / 2
+			opts := engine.Opts{EngineOpts: promOpts(EngineCfg{}), LogicalOptimizers: logicalplan.DefaultOptimizers}
+			remotes := []api.RemoteEngine{engine.NewLocalEngine(opts, NewStore(data[:half])), engine.NewLocalEngine(opts, NewStore(data[half:]))}
+			dist := engine.NewDistributedEngine(opts, api.NewStaticEndpoints(remotes))
+			runQuery(dist, NewStore(data), EngineCfg{}, qs, w)
+		}()
+	}
 	return res
 }
 
@@ -341,7 +363,7 @@ func nanValue() float64 { var z float64; return z / z }
 // oracleCancel (C14): cancellation at the k-th callback / at a random instant /
 // with a storage that blocks until cancelled.
 func oracleCancel(seed int64, id int) CaseResult {
-	fc, r := genFaultCase(seed, id, []string{"cancel", "block", "timer", "race", "blockcancel"}, allSites[:11])
+	fc, r := genFaultCase(seed, id, []string{"cancel", "block", "timer", "race", "blockcancel", "precancel"}, allSites[:11])
 	if id%3 == 0 {
 		fc.Dist = true
 	}
@@ -353,14 +375,20 @@ func oracleCancel(seed int64, id int) CaseResult {
 		res.Skipped = "rejected at creation"
 		return res
 	}
-	if counts[fc.Site] == 0 {
+	if counts[fc.Site] == 0 && fc.Kind != "precancel" {
 		fc.Site = "it.seek"
 		if counts[fc.Site] == 0 {
-			res.Skipped = "no storage callbacks"
-			return res
+			fc.Site = "select" // a query without series still opens a querier and selects
+			if counts[fc.Site] == 0 {
+				res.Skipped = "no storage callbacks"
+				return res
+			}
 		}
 	}
-	fc.N = 1 + r.Int63n(counts[fc.Site])
+	fc.N = 1
+	if counts[fc.Site] > 0 {
+		fc.N = 1 + r.Int63n(counts[fc.Site])
+	}
 	res.Tags = []string{fmt.Sprintf("cancel=%s@%s#%d/%d dist=%v", fc.Kind, fc.Site, fc.N, counts[fc.Site], fc.Dist)}
 	res.NonTriv = true
 	st := NewStore(data)
@@ -382,6 +410,9 @@ func oracleCancel(seed int64, id int) CaseResult {
 	}
 	done := make(chan *promql.Result, 1)
 	ev0 := atomic.LoadInt64(&storeEvents)
+	if fc.Kind == "precancel" {
+		cancel() // the context is already done when Exec is called
+	}
 	go func() { done <- q.Exec(ctx) }()
 	switch fc.Kind {
 	case "block":
@@ -419,7 +450,11 @@ func oracleCancel(seed int64, id int) CaseResult {
 	if out.Kind == "error" {
 		if out.Err != "ctx-canceled" && !(fc.Dist && strings.Contains(out.ErrMsg, "context canceled")) {
 			res.Fail = "cancelled query returned an error that is not the context's: [" + out.Err + "] " + out.ErrMsg
+		} else if !errors.Is(out.RawErr, context.Canceled) {
+			res.Fail = "cancelled query returned an error that reads like the context's but does not wrap it (errors.Is): " + fmt.Sprintf("%T", out.RawErr) + " " + out.ErrMsg
 		}
+	} else if fc.Kind == "precancel" {
+		res.Fail = "Exec on a context that was already cancelled returned a successful result: " + trunc(out.String(), 200)
 	} else if d := diffSelf(out, clean); d != "" {
 		res.Fail = fmt.Sprintf("successful result after cancellation (cancelled=%v) differs from the uncancelled result: %s", cancelled, d)
 	}
